@@ -5,6 +5,6 @@ patch=$1; prop=$2; tier=${3:-quick}; shift 3 2>/dev/null
 wt=$(mktemp -d /tmp/seedtest.XXXXXX)
 git -C /repo worktree add -q --detach $wt HEAD || exit 9
 if ! git -C $wt apply $patch 2>/tmp/seedtest.err && ! git -C $wt apply -3 $patch 2>/tmp/seedtest.err; then echo "PATCH DOES NOT APPLY to current HEAD: $(cat /tmp/seedtest.err | head -2)"; git -C /repo worktree remove --force $wt; exit 8; fi
-( cd /verif && VERIF_REPO=$wt ./run $prop $tier "$@" ); rc=$?
+( cd /verif && VERIF_REPO=$wt VERIF_OUT=$wt/.verif_out ./run $prop $tier "$@" ); rc=$?
 git -C /repo worktree remove --force $wt
 exit $rc
